@@ -48,7 +48,7 @@ func forge(tx txgen.Tx, how int, other *sim.User) (txgen.Tx, bool) {
 		}
 		stx.Signatures[0].Signed = sig
 	default:
-		if other == nil || other.Pub.KeyType != stx.Signatures[0].Signer.KeyType {
+		if other == nil || other.Pub.KeyType != stx.Signatures[0].Signer.KeyType || string(other.Pub.Data) == string(stx.Signatures[0].Signer.Data) {
 			sig[0] ^= 0x80
 			stx.Signatures[0].Signed = sig
 		} else {
@@ -370,7 +370,7 @@ func execute(h *run.H, tr *hist.Trace, draw func(w *hist.World) ([]hist.Step, []
 				if t.Code != 0 {
 					st.feats["forged-twin:delivered-and-rejected-on-both"]++
 				} else {
-					st.feats["forged-twin:delivered-and-accepted-on-both"]++
+					st.feats["forged-twin:delivered-and-accepted-on-both:"+blk.Kinds[i]]++
 				}
 			}
 		}
